@@ -6,6 +6,12 @@ use crate::runner::{viol, Exec, Violation};
 use serde_json::{json, Value};
 
 pub mod c01;
+pub mod c03;
+pub mod c04;
+pub mod c15;
+pub mod c16;
+pub mod c17;
+pub mod c18;
 
 /// `got` must be isomorphic (C03's notion) to `want`.  Undecided searches are counted, never flagged.
 pub fn expect_iso(ex: &mut Exec, got: &Plain, want: &Plain, class: &str, ctx: &str) -> Result<(), Violation> {
